@@ -359,9 +359,68 @@ def gen_rotate(rng, tier, shard, nshards, boost):
         yield {"bitmap": bm, "root": rng.randint(0, 11)}
 
 
-CHECKERS = {"chord.lattice": check_lattice, "chord.vocab": check_vocab, "chord.majmin_inv": check_majmin_inv,
+def _documented_score(rule, ref, est):
+    """the documented reading of a rule on ONE label pair, computed from the two encodings with plain Python (no
+    NumPy, none of the comparison code): what is compared (root / third / triad = first 8 semitones / all 12 / + bass),
+    which references are outside the vocabulary (-1); majmin_inv / sevenths_inv at the encoding level (bitmap[bass]),
+    the documented bass-in-triad reading of majmin_inv is the separate site chord.majmin_inv"""
+    (rr, rb, rs), (er, eb, es) = cl.enc(ref), cl.enc(est)
+    rb, eb = list(rb), list(eb)
+    if ref == "X":
+        return -1.0
+    base = rule[:-4] if rule.endswith("_inv") else rule
+    inv_ok = (rs == es) if rule.endswith("_inv") else True
+    if base == "root":
+        return float(rr == er)
+    if base == "thirds":
+        return float(rr == er and rb[3] == eb[3] and inv_ok)
+    if base == "triads":
+        return float(rr == er and rb[:8] == eb[:8] and inv_ok)
+    if base == "tetrads":
+        return float(rr == er and rb == eb and inv_ok)
+    if base == "mirex":
+        if 0 < sum(1 for v in rb if v > 0) < 3:
+            return -1.0
+        if rr == -1 and er == -1:
+            return 1.0
+        pcs = lambda root, bm: {(i + root) % 12 for i, v in enumerate(bm) if v}
+        return float(len(pcs(rr, rb) & pcs(er, eb)) >= 3)
+    is_n = (ref == "N")
+    if base == "majmin":
+        if not (is_n or rb[:8] in (cl.MAJ[:8], cl.MIN[:8])):
+            return -1.0
+        if rule.endswith("_inv") and not is_n and rb[rs] == 0:
+            return -1.0
+        return float(rr == er and rb[:8] == eb[:8] and inv_ok)
+    if base == "sevenths":
+        if not (is_n or rb in cl.SEVENTH_BITMAPS):
+            return -1.0
+        if rule.endswith("_inv") and not is_n and rb[rs] == 0:
+            return -1.0
+        return float(rr == er and rb == eb and inv_ok)
+    raise KeyError(rule)
+
+
+def check_definition(inp):
+    """every rule on one pair returns what its documentation says it compares (root; root + third; root + triad; root +
+    all semitones; the same + bass for *_inv; >= 3 common pitch classes for mirex; the maj/min resp. seventh
+    vocabularies)"""
+    ref, est = inp["ref"], inp["est"]
+    for r in ([inp["rule"]] if inp.get("rule") else cl.RULES):
+        got = float(cl.rule_fn(r)([ref], [est])[0])
+        want = _documented_score(r, ref, est)
+        if got != want:
+            return "%s(%r, %r) = %r, the documented comparison gives %r" % (r, ref, est, got, want)
+    return None
+
+
+def gen_definition(rng, tier, shard, nshards, boost):
+    return _gen_pairs(rng, tier, shard, nshards, boost, 4000, 60000, False)
+
+
+CHECKERS = {"chord.definition": check_definition, "chord.lattice": check_lattice, "chord.vocab": check_vocab, "chord.majmin_inv": check_majmin_inv,
             "chord.rotate_bitmap_to_root": check_rotate}
-ORACLES = {"chord.lattice": gen_lattice, "chord.vocab": gen_vocab, "chord.majmin_inv": gen_majmin_inv,
+ORACLES = {"chord.definition": gen_definition, "chord.lattice": gen_lattice, "chord.vocab": gen_vocab, "chord.majmin_inv": gen_majmin_inv,
            "chord.rotate_bitmap_to_root": gen_rotate}
 
 
@@ -397,4 +456,6 @@ def classify(suite, d):
     inp = {"ref": refs[k], "est": ests[k], "est2": "N"}
     if check_lattice(inp) is None and check_vocab(inp) is not None:
         return "chord.vocab", inp
+    if check_lattice(inp) is None and check_definition(inp) is not None:
+        return "chord.definition", {"ref": inp["ref"], "est": inp["est"]}
     return "chord.lattice", inp
